@@ -182,12 +182,7 @@ theorem C18_ndv_le_rows (dev : Dev) (nn : Nat) (b : Bool) (mn mx : Option Int) (
     (h : ndvOf dev nn b mn mx = .ok (some k)) : k ≤ nn := by
   unfold ndvOf at h
   repeat' split at h
-  all_goals first
-    | cases h
-    | (injection h with h; injection h with h; subst h; exact Nat.min_le_left _ _)
-    | (injection h with h; injection h with h; rw [← h]; exact Nat.min_le_left _ _)
-    | exact Nat.min_le_left _ _
-    | (injection h with h; cases h)
+  all_goals (cases h; try exact Nat.min_le_left _ _)
 
 /-- NEGATION WITNESS for the unchanged tree (finding C18-F1, DESIGN A.11): with `statslessKeepsMinMax` on,
     a table whose first file reports k ∈ [1,3] and whose second file was written without statistics and holds
